@@ -5,6 +5,7 @@ CONSTANTS
   Quit = 1
   Stay = TRUE
   WaitsForPager = TRUE
+  RetriesShort = TRUE
 INVARIANTS NoEarlyExit AllDelivered NothingInvented LogOrder Emit
 PROPERTY Terminates
 CHECK_DEADLOCK FALSE
